@@ -147,7 +147,9 @@ int main(int argc, char **argv) {
           int cnt = atoi(a); char *p = strchr(a, ':') + 1;
           int32_t *data = calloc(cnt + 1, sizeof *data);
           for (int i = 0; i < cnt; i++) { data[i] = (int32_t)strtol(p, &p, 10); if (*p == ',') p++; }
-          arr->size = cnt * sizeof(int32_t); arr->alloc = arr->size; arr->data = data; c->args[ai].a = arr; break; }
+          /* "<count>+<x>:..." : x bytes beyond the last whole word */
+          int extra = 0; { char *plus = strchr(a, '+'); if (plus && plus < strchr(a, ':')) extra = atoi(plus + 1); }
+          arr->size = cnt * sizeof(int32_t) + extra; arr->alloc = arr->size; arr->data = data; c->args[ai].a = arr; break; }
         }
         ai++;
       }
